@@ -434,6 +434,11 @@ OPTIONS:
 		intf.TimestampResolution = 6
 	}
 
+	// a resolution finer than 2^-63 or 10^-19 does not fit into 64 bit (and would make secondMask zero)
+	if exponent := intf.TimestampResolution.Exponent(); (intf.TimestampResolution.Binary() && exponent > 63) || (!intf.TimestampResolution.Binary() && exponent > 19) {
+		return fmt.Errorf("Unsupported timestamp resolution %#x", uint8(intf.TimestampResolution))
+	}
+
 	//parse options
 	if intf.TimestampResolution.Binary() {
 		//negative power of 2
